@@ -2,5 +2,6 @@ SPECIFICATION Spec
 INVARIANT OrderOK
 INVARIANT RegionTotal
 PROPERTY Monotone
+PROPERTY RetraceResets
 CONSTRAINT Small
 CHECK_DEADLOCK FALSE
